@@ -100,6 +100,16 @@ def check_segmentation(password, sections, hist):
                                                           "whole_count": hist.count(whole)})
         return None
 
+    # digit runs are maximal: a D or Y segment never touches a digit that belongs to a plain neighbour
+    # (keyboard walks, context strings, e-mail and website segments may legitimately contain digits)
+    for i, (seg, label) in enumerate(sections):
+        if not label or label[0] not in "DY" or not seg:
+            continue
+        for j, edge in ((i - 1, -1), (i + 1, 0)):
+            if 0 <= j < len(sections):
+                nseg, nlabel = sections[j]
+                if nseg and nlabel and nlabel[0] in "ADOY" and nseg[edge].isdigit():
+                    return ("digit_run_not_maximal", {"segment": seg, "label": label, "neighbour": nseg, "neighbour_label": nlabel})
     for seg, label in sections:
         if label is None:
             return ("untyped_segment", {"segment": seg})
